@@ -6,7 +6,7 @@ $FICKLING_REPO/fickling and writes coq/gen/CallGraph.v (only when its content ch
           callee or referenced external name, plus three pseudo nodes:
             <implicit>        every dunder method and every base-class callback (visit_*, insert, ...):
                               reachable from EVERY body (operators, len(), str(), for, with, ...)
-            <unknown-callee>  a call whose callee is a computed value: may be ANY callable whose value
+            <unknown-callee:M>  a call in module M whose callee is a computed value: may be ANY callable whose value
                               escapes (every class constructor, every function mentioned outside call
                               position, every external name mentioned outside call position)
   edges   body -> everything it calls or mentions.  Dynamic dispatch is over-approximated by NAME:
@@ -164,6 +164,8 @@ class Extractor:
         self.edges = {}            # node name -> set(node name)
         self.leaf_eff = {}         # leaf name -> class
         self.escaped = set()       # node names that may be the target of an unknown callee
+        self.escaped_in = {}       # node name -> set of module short names where it became a value
+        self.unknown_nodes = {}    # module short name -> '<unknown-callee:module>'
         self.callsites = {}        # Func -> [(caller Func, ast.Call, skip_first)]
         self.open_calls = []       # (Func, ast.Call)
         self.pruned = []
@@ -657,6 +659,19 @@ class Extractor:
     def ext_leaf(self, dotted):
         return self.leaf(f"ext:{dotted}", classify_ext(dotted))
 
+    def unk(self, f):
+        """the computed-callee node of the module body f belongs to"""
+        sh = self.short(f.module)
+        n = f"<unknown-callee:{sh}>"
+        if sh not in self.unknown_nodes:
+            self.unknown_nodes[sh] = n
+            self.edges.setdefault(n, set())
+        return n
+
+    def escape(self, name, f):
+        self.escaped.add(name)
+        self.escaped_in.setdefault(name, set()).add(self.short(f.module))
+
     def use(self, f, targets, call, node=None):
         """edges from body f for a resolved reference; call=True for call position"""
         src = f.qual
@@ -665,7 +680,7 @@ class Extractor:
             if k == "func":
                 self.edge(src, t[1].qual)
                 if not call:
-                    self.escaped.add(t[1].qual)
+                    self.escape(t[1].qual, f)
                 elif node is not None:
                     self.callsites.setdefault(t[1], []).append((f, node, t))
             elif k in ("class", "cls"):
@@ -679,12 +694,12 @@ class Extractor:
             elif k == "ext":
                 self.edge(src, self.ext_leaf(t[1]))
                 if not call:
-                    self.escaped.add(f"ext:{t[1]}")
+                    self.escape(f"ext:{t[1]}", f)
             elif k == "xmod":
                 self.edge(src, self.leaf(f"module-object:{t[1]}", EFFECTFUL if not call else EFFECTFUL))
             elif k == "imod":
                 if call:
-                    self.edge(src, "<unknown-callee>")
+                    self.edge(src, self.unk(f))
             elif k == "oos":
                 m = self.oos_class(t[1])
                 self.edge(src, self.leaf(f"out-of-scope:{t[1]}", m))
@@ -695,7 +710,7 @@ class Extractor:
                 for it in internal:
                     self.edge(src, it[1].qual)
                     if not call:
-                        self.escaped.add(it[1].qual)
+                        self.escape(it[1].qual, f)
                     elif node is not None:
                         self.callsites.setdefault(it[1], []).append((f, node, t))
                 if call:
@@ -705,7 +720,7 @@ class Extractor:
                     self.edge(src, self.leaf(f"method:{t[1]}", EFFECTFUL))
             elif k in ("self", "super", "data", "unk"):
                 if call:
-                    self.edge(src, "<unknown-callee>")
+                    self.edge(src, self.unk(f))
             else:
                 raise Fail(f"target {t!r}")
 
@@ -743,7 +758,7 @@ class Extractor:
         ok = all((t[0] == "ext" and t[1] in PURE_DECORATORS) or t[0] == "data" for t in ts)
         if not ok:
             self.use(f, ts, call=True)
-            self.edge(f.qual, "<unknown-callee>")
+            self.edge(f.qual, self.unk(f))
 
     def assume(self, f):
         return ENTRY_ASSUME.get(f.qual)
@@ -780,7 +795,7 @@ class Extractor:
                 self.visit(f, d, ctx)
             if g is not None and f.kind != "module":
                 self.edge(f.qual, g.qual)       # a nested function is a value of its definer
-                self.escaped.add(g.qual)
+                self.escape(g.qual, f)
             return
         if isinstance(s, ast.ClassDef):
             cs = [c for c in self.classes if c.node is s]
@@ -864,7 +879,7 @@ class Extractor:
         if isinstance(e, ast.Lambda):
             g = self.lambda_of[id(e)]
             self.edge(f.qual, g.qual)
-            self.escaped.add(g.qual)
+            self.escape(g.qual, f)
             for d in list(e.args.defaults) + [d for d in e.args.kw_defaults if d is not None]:
                 self.visit(f, d, ctx)
             return
@@ -953,7 +968,7 @@ class Extractor:
             return
         # computed callee
         self.visit(f, fn, ctx)
-        self.edge(f.qual, "<unknown-callee>")
+        self.edge(f.qual, self.unk(f))
 
     # ---- argument-dependent builtins ----
     def sp_attr(self, which):
@@ -1125,7 +1140,6 @@ class Extractor:
                         and len(n.args) == 3 and isinstance(n.args[1], ast.Constant) and isinstance(n.args[1].value, str):
                     self.bind_attr(f, n.args[0], n.args[1].value, n.args[2], Ctx(f, None))
         self.edges["<implicit>"] = set()
-        self.edges["<unknown-callee>"] = set()
         for f in self.funcs:
             self.edges.setdefault(f.qual, set())
         for f in self.funcs:
@@ -1143,18 +1157,95 @@ class Extractor:
                     dunder = name.startswith("__") and name.endswith("__") and name not in NOT_IMPLICIT
                     if dunder or unknown_base or any(p(name) for p in preds if p):
                         self.edge("<implicit>", t[1].qual)
-        # <unknown-callee>: every constructor and every escaped callable
-        for c in self.classes:
-            for ct in self.ctor_targets(c):
-                self.edge("<unknown-callee>", ct[1].qual if ct[0] == "func" else self.ext_leaf(ct[1]))
-        for n in sorted(self.escaped):
-            self.edge("<unknown-callee>", n)
+        # <unknown-callee:M> (a call in module M whose callee is a computed value): every constructor
+        # (class objects are registered across modules, e.g. Analysis.ALL, OPCODES_BY_NAME), and every
+        # callable that became a VALUE in a module whose values can reach M: M itself, the modules M
+        # (transitively) imports, and the importers of M that hand a callable to one of M's functions as
+        # a call argument.  (A lambda kept in a table of an unrelated module cannot be what M calls.)
+        if any(n not in self.escaped_in for n in self.escaped):
+            raise Fail("escaped callable without a recorded site")
+        imports = self.module_imports()
+        passers = self.callable_passers()
+        for sh, node in sorted(self.unknown_nodes.items()):
+            vis = {sh} | self.closure(imports, sh)
+            vis |= {n for n in passers.get(sh, set())}
+            for c in self.classes:
+                for ct in self.ctor_targets(c):
+                    self.edge(node, ct[1].qual if ct[0] == "func" else self.ext_leaf(ct[1]))
+            for n in sorted(self.escaped):
+                if self.escaped_in[n] & vis:
+                    self.edge(node, n)
         # open() needs the finished call-site index
         for f, e in self.open_calls:
             name, eff = self.classify_open(f, e)
             self.edge(f.qual, self.leaf(name, eff))
         # a synthetic NON-entry body that evaluates its input: shows the checker can say "no"
         self.edge(SENTINEL, self.ext_leaf("builtins.eval"))
+
+    def module_imports(self):
+        """short name -> set of short names of fickling modules it imports (anywhere in the file)"""
+        out = {}
+        names = {m.name: self.short(m) for m in self.modules.values()}
+        for m in self.modules.values():
+            acc = set()
+            for n in ast.walk(m.tree):
+                if isinstance(n, ast.Import):
+                    for a in n.names:
+                        if a.name in names:
+                            acc.add(names[a.name])
+                        elif a.name == PKG:
+                            acc.add("__init__")
+                elif isinstance(n, ast.ImportFrom):
+                    base = n.module or ""
+                    if n.level:
+                        pkg = m.name.split(".")
+                        if not m.path.endswith("__init__.py"):
+                            pkg = pkg[:-1]
+                        pkg = pkg[:len(pkg) - (n.level - 1)]
+                        base = ".".join(pkg + ([n.module] if n.module else []))
+                    if base in names:
+                        acc.add(names[base])
+                    for a in n.names:
+                        if f"{base}.{a.name}" in names:
+                            acc.add(names[f"{base}.{a.name}"])
+            out[self.short(m)] = acc - {self.short(m)}
+        return out
+
+    @staticmethod
+    def closure(rel, start):
+        seen, todo = set(), [start]
+        while todo:
+            x = todo.pop()
+            for y in rel.get(x, ()):
+                if y not in seen:
+                    seen.add(y)
+                    todo.append(y)
+        return seen
+
+    def callable_passers(self):
+        """module M -> modules N != M containing a call to a function of M with an argument that is (or
+        may evaluate to) a callable: a lambda, or a reference resolving to a function / class / external"""
+        out = {}
+        for g, sites in self.callsites.items():
+            M = self.short(g.module)
+            for caller, call, how in sites:
+                N = self.short(caller.module)
+                if N == M:
+                    continue
+                args = list(call.args) + [k.value for k in call.keywords]
+                for a in args:
+                    if isinstance(a, ast.Starred):
+                        a = a.value
+                    hit = isinstance(a, ast.Lambda)
+                    if not hit and isinstance(a, (ast.Name, ast.Attribute)):
+                        try:
+                            ts = self.resolve(a, Ctx(caller, None))
+                        except Fail:
+                            ts = [("unk",)]
+                        hit = any(t[0] in ("func", "class", "cls", "ext") for t in ts)
+                    if hit:
+                        out.setdefault(M, set()).add(N)
+        return out
 
     def entry_nodes(self):
         quals = {f.qual: f for f in self.funcs}
@@ -1255,7 +1346,7 @@ def emit(x):
     names = sorted(x.edges)
     # stable ids: bodies first, then pseudo nodes, then leaves (all sorted by name)
     bodies = sorted(f.qual for f in x.funcs)
-    pseudo = ["<implicit>", "<unknown-callee>", SENTINEL]
+    pseudo = ["<implicit>"] + sorted(x.unknown_nodes.values()) + [SENTINEL]
     leaves = sorted(n for n in names if n not in set(bodies) and n not in pseudo)
     for n in leaves:
         if n not in x.leaf_eff:
@@ -1328,7 +1419,7 @@ def main():
             "CallGraph": {"digest": hashlib.sha256(text.encode()).hexdigest()[:16]},
             "sources": {x.short(m): hashlib.sha256(m.src.encode()).hexdigest()[:16]
                         for m in x.modules.values() if m.in_scope},
-            "nodes": len(order), "bodies": len(bodies), "leaves": len(order) - len(bodies) - 3,
+            "nodes": len(order), "bodies": len(bodies), "leaves": len(order) - len(bodies) - 2 - len(x.unknown_nodes),
             "edges": sum(len(v) for v in x.edges.values()),
             "entry_points": entries,
             "reachable": len(parent), "reachable_bodies": len([n for n in parent if n in bodies]),
